@@ -279,6 +279,8 @@ type c11Readers struct {
 	Srcs []string // pattern sources (for evidence)
 	// Extracted holds the patterns found in the sources at check time that the curated list did not already cover.
 	Extracted []string
+	// Found is the number of distinct read patterns the extraction saw in the sources (covered or not).
+	Found int
 }
 
 func (r *c11Readers) add(src string) {
@@ -400,6 +402,7 @@ func c11BuildDictionary(repo string) ([]c11Key, *c11Readers) {
 	dict := c11BaseDict()
 	curatedKeys := c11ExpandDict(dict)
 	pats, reps := c11ExtractReaders(repo)
+	rd.Found = len(pats)
 	type extra struct {
 		pat string
 		rep c11Entry
